@@ -68,7 +68,14 @@ Fds  == 0 .. (NFd - 1)
 Objs == 1 .. MaxObj
 
 NoObj == [kind |-> "", st |-> "none", fd |-> -1, fd2 |-> -1, closed |-> FALSE, ncl |-> 0,
-          evr |-> FALSE, evw |-> FALSE, refs |-> FALSE, nconn |-> "none", coll |-> FALSE, gen |-> 0, lclosed |-> FALSE]
+          evr |-> FALSE, evw |-> FALSE, refs |-> FALSE, nconn |-> "none", coll |-> FALSE, gen |-> 0, lclosed |-> FALSE,
+          rk |-> ""]
+\* rk is a ghost (it is in the VIEW, nothing reads it): by which code path the object's current registry entry got where
+\* it is - "" registered and not touched since, "kept" it survived the object's own Deregister because the other
+\* direction was still armed, "stale" it survived the Deregister of another object that used to have the same number.
+\* A transition cover continues every model state behind one history only; with rk in the state, "read and write parked,
+\* read completes" and "read parked and completed, write parked" are different states although registry and interests
+\* agree, and the continuation (drop the references, collect, complete the write) is generated behind both.
 
 \* ---------------------------------------------------------------------------
 \* constructors: step tables
@@ -171,6 +178,9 @@ CloseNum(t, f) == IF f >= 0 /\ t[f] # 0 THEN [t EXCEPT ![f] = 0] ELSE t
 \* IO.Deregister(&slot) of object o: clears the registry entry of slot.Fd - before the
 \* repair whoever had put it there, since then only the object's own
 DeregO(r, f, o) == IF f >= 0 /\ (BUG_ForeignDeregister \/ r[f] = o) THEN [r EXCEPT ![f] = 0] ELSE r
+\* the object whose entry a Deregister(number f) issued by object o leaves alone (0: none)
+Survivor(r, f, o) == IF f >= 0 /\ ~BUG_ForeignDeregister /\ r[f] # 0 /\ r[f] # o THEN r[f] ELSE 0
+MarkStale(os, p) == IF p = 0 THEN os ELSE [os EXCEPT ![p].rk = "stale"]
 
 SortedSeq(S) == SetToSortSeq(S, LAMBDA a, b : a < b)
 
@@ -280,18 +290,19 @@ Guarded(ob) ==
 \* what the call does to table, registry and the object
 CloseEffect(o) ==
   LET ob == objs[o] IN
-  IF ob.closed /\ Guarded(ob) THEN [t |-> tab, r |-> reg, ob |-> [ob EXCEPT !.ncl = @ + 1]]
+  IF ob.closed /\ Guarded(ob) THEN [t |-> tab, r |-> reg, sv |-> 0, ob |-> [ob EXCEPT !.ncl = @ + 1]]
   ELSE IF ob.kind = "adp" /\ ~BUG_AdapterRawClose THEN
        \* repaired: the adapter closes through the net.Conn, which closes its descriptor once
-       [t |-> IF ob.nconn = "open" THEN CloseNum(tab, ob.fd) ELSE tab, r |-> DeregO(reg, ob.fd, o),
-        ob |-> [ob EXCEPT !.closed = TRUE, !.ncl = @ + 1, !.evr = FALSE, !.evw = FALSE, !.nconn = "closed"]]
+       [t |-> IF ob.nconn = "open" THEN CloseNum(tab, ob.fd) ELSE tab, r |-> DeregO(reg, ob.fd, o), sv |-> Survivor(reg, ob.fd, o),
+        ob |-> [ob EXCEPT !.closed = TRUE, !.ncl = @ + 1, !.evr = FALSE, !.evw = FALSE, !.nconn = "closed", !.rk = ""]]
   ELSE IF ob.kind \in {"ws", "wsa"} THEN
        \* CloseNextLayer: net.Conn.Close, guarded by conn = nil
-       [t |-> IF ob.nconn = "open" THEN CloseNum(tab, ob.fd) ELSE tab, r |-> reg,
+       [t |-> IF ob.nconn = "open" THEN CloseNum(tab, ob.fd) ELSE tab, r |-> reg, sv |-> 0,
         ob |-> [ob EXCEPT !.closed = TRUE, !.ncl = @ + 1, !.nconn = "closed"]]
   ELSE [t |-> CloseNum(CloseNum(tab, ob.fd), ob.fd2),
         r |-> IF ob.kind \in {"io", "timer"} THEN reg ELSE DeregO(reg, ob.fd, o),
-        ob |-> [ob EXCEPT !.closed = TRUE, !.ncl = @ + 1, !.evr = FALSE, !.evw = FALSE]]
+        sv |-> IF ob.kind \in {"io", "timer"} THEN 0 ELSE Survivor(reg, ob.fd, o),
+        ob |-> [ob EXCEPT !.closed = TRUE, !.ncl = @ + 1, !.evr = FALSE, !.evw = FALSE, !.rk = ""]]
 
 DoClose(o) ==
   LET ob == objs[o]
@@ -301,7 +312,7 @@ DoClose(o) ==
   IN
   /\ ob.st = "live" /\ ob.ncl < MaxClose /\ ob.refs     \* ("mir": Destroy)
   /\ tab' = ef.t /\ reg' = ef.r
-  /\ objs' = [objs EXCEPT ![o] = ef.ob]
+  /\ objs' = MarkStale([objs EXCEPT ![o] = ef.ob], ef.sv)
   /\ mon' = M!Step(mon, Ev("Close", o, EvKind(ob), "none", 1, 1, "", 0, Census(tab), Census(ef.t), {}, {}))
   /\ hist' = Append(hist, Cmd("Close", o, ob.kind, "none", "", 1, 0, Cardinality(lost), 0))
   /\ UNCHANGED <<nmade, nplug>>
@@ -339,8 +350,9 @@ LayerClose(o) ==
   /\ ob.st = "live" /\ ob.kind \in {"ws", "wsa"} /\ ob.gen = 1 /\ ob.ncl < MaxClose /\ ob.refs
   /\ tab' = t1
   /\ reg' = IF ob.lclosed THEN reg ELSE DeregO(reg, ob.fd, o)
-  /\ objs' = [objs EXCEPT ![o].lclosed = TRUE, ![o].ncl = @ + 1,
-                          ![o].nconn = IF BUG_AdapterRawClose \/ ob.lclosed THEN @ ELSE "closed"]
+  /\ objs' = MarkStale([objs EXCEPT ![o].lclosed = TRUE, ![o].ncl = @ + 1,
+                                    ![o].nconn = IF BUG_AdapterRawClose \/ ob.lclosed THEN @ ELSE "closed"],
+                        IF ob.lclosed THEN 0 ELSE Survivor(reg, ob.fd, o))
   /\ mon' = M!Step(mon, Ev("Close", o, ob.kind, "none", 1, 0, "", 0, Census(tab), Census(t1), {}, {}))
   /\ hist' = Append(hist, Cmd("LayerClose", o, ob.kind, "none", "", 1, 0, Cardinality(lost), 0))
   /\ UNCHANGED <<nmade, nplug>>
@@ -379,7 +391,8 @@ Fire(o, dir) ==
   /\ WithGc /\ ob.st = "live" /\ ~ob.coll
   /\ ob.fd >= 0 /\ tab[ob.fd] = o     \* readiness can only be reported for a descriptor that is still open
   /\ IF dir = "r" THEN ob.evr ELSE ob.evw
-  /\ objs' = [objs EXCEPT ![o].evr = IF dir = "r" THEN FALSE ELSE @, ![o].evw = IF dir = "w" THEN FALSE ELSE @]
+  /\ objs' = [objs EXCEPT ![o].evr = IF dir = "r" THEN FALSE ELSE @, ![o].evw = IF dir = "w" THEN FALSE ELSE @,
+                          ![o].rk = IF ob.kind = "timer" THEN @ ELSE IF BUG_EarlyDeregister \/ ~other THEN "" ELSE "kept"]
   /\ reg' = IF ob.kind = "timer" THEN reg
             ELSE IF BUG_EarlyDeregister \/ ~other THEN DeregO(reg, ob.fd, o) ELSE reg
   /\ mon' = M!Step(mon, Ev(IF ob.refs THEN "Done" ELSE "Deliver", o, ob.kind, "none", 1, 0, dir, 0,
